@@ -79,7 +79,7 @@ structure ApiRun where
 
 /-- `get_api`, up to and including the walk -/
 def getApi (i : ToolInput) : Except PyErr ApiRun :=
-  match discoverFrom i.srcDir i.files i.isTestRun with
+  match discoverSorted i.srcDir i.files i.isTestRun with
   | .error e => .error e
   | .ok (root, d) =>
     let pkg := pathStem root
